@@ -13,14 +13,15 @@ BASELINE_OFF = ("cd /repo && env -u AEGEAN_VERIF /venv/bin/python -m pytest -ra 
 # id -> (category, text, note, technique, design_ref)
 CHECKS = {
     "C20": ("model_checking",
-            "TLC proves on spec/MC_Bands.tla that the integer band design tiles for all rows<=R, n<=64; the same "
+            "TLC proves on spec/MC_Bands.tla that the integer band design tiles for all rows<=R, n<=64 (and TLAPS proves "
+            "First/Last/Adjacent/Ordered of that design for EVERY rows and n: spec/TilesProof.tla, 38 obligations); the same "
             "bounded-exhaustive (rows, n) domain is executed on the real load_image_band (plain, 3-D, 4-D, BSCALE, "
             "compressed files) and every observation is validated by TLC against the property-level predicates "
             "Tiling/HeaderShiftOK of spec/Tiles.tla via spec/Bands_Trace.tla. Exhaustive in the discrete domain the "
             "property quantifies over (quick rows<=100 + seeded large rows; thorough rows<=2000).",
             "astropy.io.fits read/write of the generated test files; token images rows*4+col exact in float32; for the "
             "compressed variant the reference image is fits_tools.expand (pinned by C15).",
-            "TLA+ model (MC_Bands) checked by TLC + TLC trace validation (Bands_Trace) of bounded-exhaustive load_image_band executions",
+            "TLA+ model (MC_Bands) checked by TLC, unbounded TLAPS lemmas (TilesProof) + TLC trace validation (Bands_Trace) of bounded-exhaustive load_image_band executions",
             "4/C20"),
     "C15": ("model_checking",
             "TLC proves on spec/MC_Expand.tla (the coded decimation + linear interpolation design, one separable axis, "
